@@ -201,7 +201,7 @@ Definition fmt_path (segs : list string) : toks := core_path ("fmt" :: segs).
 
 Definition render_debug_arm (p : data * dbg_arm) : toks :=
   let '(d, a) := p in
-  let name := str_lit (d_ident d) in
+  let name := str_lit (unraw (d_ident d)) in
   match d_shape d with
   | ShStruct | ShUnion =>
       self_pattern d ++ ["=>"; "{"; "let"; "mut"; "__builder"; "="] ++ fmt_path ["Formatter"; "debug_struct"] ++
@@ -403,11 +403,18 @@ Definition render_ord (c : cfg) (g : generics) (it : item) (b : ord_body) : toks
   core_path ["cmp"; "Ordering"] ++ ["{"] ++ render_ord_body c Ord g it b ++ ["}"].
 
 (* ---- Zeroize / ZeroizeOnDrop ---- *)
-Definition render_zeroize_arm (dt : derive_trait) (p : data * list (nat * bool)) : toks :=
+Definition wild_arm (d : data) : toks := inc_pat d ++ ["=>"; "{"; "}"].
+
+Definition render_zeroize_arm (dt : derive_trait) (p : data * zarm) : toks :=
   let '(d, a) := p in
-  self_pattern_mut d ++ ["=>"; "{"] ++
-  flat_map (fun q : nat * bool => if snd q then path_toks (trait_path dt) ++ ["::"; "zeroize"; "("; self_id d (fst q); ")"; ";"]
-                     else [self_id d (fst q); "."; "zeroize"; "("; ")"; ";"]) a ++ ["}"].
+  match a with
+  | ZWild => wild_arm d
+  | ZFields fs =>
+      self_pattern_mut d ++ ["=>"; "{"] ++
+      flat_map (fun q : nat * bool =>
+                  if snd q then path_toks (trait_path dt) ++ ["::"; "zeroize"; "("; self_id d (fst q); ")"; ";"]
+                  else [self_id d (fst q); "."; "zeroize"; "("; ")"; ";"]) fs ++ ["}"]
+  end.
 
 Definition render_zeroize (dt : derive_trait) (vs : list data) (b : zeroize_body) : toks :=
   ["fn"; "zeroize"; "("; "&"; "mut"; "self"; ")"; "{"] ++
@@ -415,13 +422,17 @@ Definition render_zeroize (dt : derive_trait) (vs : list data) (b : zeroize_body
   | ZEmpty => []
   | ZMatch arms =>
       ["use"] ++ path_toks (trait_path dt) ++ [";"; "match"; "self"; "{"] ++
-      flat_map (render_zeroize_arm dt) (with_arms vs arms) ++ ["}"]
+      flat_map (render_zeroize_arm dt) (with_all vs arms) ++ ["}"]
   end ++ ["}"].
 
-Definition render_drop_arm (p : data * arm) : toks :=
+Definition render_drop_arm (p : data * darm) : toks :=
   let '(d, a) := p in
-  self_pattern_mut d ++ ["=>"; "{"] ++
-  flat_map (fun i => [self_id d i; "."; "zeroize_or_on_drop"; "("; ")"; ";"]) a ++ ["}"].
+  match a with
+  | DWild => wild_arm d
+  | DFields fs =>
+      self_pattern_mut d ++ ["=>"; "{"] ++
+      flat_map (fun i => [self_id d i; "."; "zeroize_or_on_drop"; "("; ")"; ";"]) fs ++ ["}"]
+  end.
 
 Definition render_drop (dt : derive_trait) (vs : list data) (b : drop_body) : toks :=
   ["fn"; "drop"; "("; "&"; "mut"; "self"; ")"; "{"] ++
@@ -433,7 +444,7 @@ Definition render_drop (dt : derive_trait) (vs : list data) (b : drop_body) : to
   | DrMatch arms =>
       ["use"] ++ path_toks (path_from_root_and_strs (trait_crate dt) ["__internal"; "AssertZeroize"]) ++
       [";"; "use"] ++ path_toks (path_from_root_and_strs (trait_crate dt) ["__internal"; "AssertZeroizeOnDrop"]) ++
-      [";"; "match"; "self"; "{"] ++ flat_map render_drop_arm (with_arms vs arms) ++ ["}"]
+      [";"; "match"; "self"; "{"] ++ flat_map render_drop_arm (with_all vs arms) ++ ["}"]
   end ++ ["}"].
 
 (* ---- generate_impl ---- *)
